@@ -287,3 +287,156 @@ Proof.
     apply add_known_has. rewrite map_map. exact Hf.
 Qed.
 End Prologue.
+
+(* ---- the rule ---------------------------------------------------------------------------------------------------------- *)
+Lemma iters1_args iters idx st : map it_arg (iters1_of iters idx st) = map it_arg iters.
+Proof.
+  unfold iters1_of. generalize 0%nat. induction iters as [|x iters IH]; intros n; [reflexivity|].
+  cbn [List.length seq combine map fst snd]. rewrite IH. destruct (Nat.eqb n idx); reflexivity.
+Qed.
+Lemma iters1_len iters idx st : List.length (map it_init (iters1_of iters idx st)) = List.length (map it_init iters).
+Proof. rewrite !map_length. unfold iters1_of. rewrite map_length, combine_length, seq_length. lia. Qed.
+
+Lemma ops_ofb_eq l : ops_ofb l = ops_of l.
+Proof. reflexivity. Qed.
+
+Lemma pair_nth {A B} (P : A * B -> bool) : forall (l1 : list A) (l2 : list B) j x y,
+  forallb P (combine l1 l2) = true -> nth_error l1 j = Some x -> nth_error l2 j = Some y -> P (x, y) = true.
+Proof.
+  induction l1 as [|a l1 IH]; intros l2 j x y H H1 H2; [destruct j; discriminate|].
+  destruct l2 as [|b l2]; [destruct j; discriminate|]. cbn [combine forallb] in H. apply andb_true_iff in H as [Ha Hb].
+  destruct j as [|j]; cbn [nth_error] in H1, H2.
+  - inversion H1; inversion H2; subst. exact Ha.
+  - apply (IH l2 j x y Hb H1 H2).
+Qed.
+
+Lemma block_reads_off_forallb F : forall b, forallb (reads_offb F) b = true -> block_reads_off F b.
+Proof.
+  induction b as [|x b IH]; intros H; [constructor|]. cbn [forallb] in H. apply andb_true_iff in H as [H1 H2].
+  split; [apply reads_offb_sound; exact H1|apply IH; exact H2].
+Qed.
+
+Lemma set_nth_length {A} (x : A) : forall l i, List.length (set_nth i x l) = List.length l.
+Proof. induction l as [|y l IH]; intros [|i]; cbn; try reflexivity. rewrite IH. reflexivity. Qed.
+
+Lemma clone_scoped_bounds deps news nf ins a s fs blk st nf2 :
+  all_spure ins = true -> clone_scoped deps news nf ins a s fs = (blk, st, nf2) -> (nf <= st)%nat /\ nf2 = S st.
+Proof.
+  intros Hp. unfold clone_scoped. destruct (clone_inputs (combine deps news) nf ins) as [[cs mp] nf'] eqn:E.
+  intros H. inversion H; subst. split; [exact (proj2 (clone_inputs_shape _ _ _ _ _ _ Hp E))|reflexivity].
+Qed.
+
+Theorem loop_stmt_rel orc F whole o nf s pl pro s' :
+  loop_plan whole o nf s = Some pl -> build_loop o s pl = Some (pro, s') -> loop_side_ok F o nf s pl = true ->
+  forall m1 m2, Rel F (lp_a pl) [] m1 m2 ->
+  Rel F (lp_a pl) (map fst (lp_fs pl)) (exec_stmt orc s m1) (exec_block orc (pro ++ [s']) m2).
+Proof.
+  intros Hplan Hbuild Hside m1 m2 HR.
+  destruct s as [| | | | | |iv lb ub sp iters rs body ys|]; try discriminate.
+  destruct (loop_plan_spec _ _ _ _ _ _ _ _ _ _ _ _ Hplan) as (Hfind & Hc1 & Hc2 & Hidx).
+  cbn [build_loop] in Hbuild. inversion Hbuild; subst pro s'. clear Hbuild.
+  set (k := lp_k pl) in *. set (a := lp_a pl) in *. set (s_in := lp_sin pl) in *. set (fs := lp_fs pl) in *.
+  set (nf1 := lp_nf1 pl) in *. set (epi := lp_epi pl) in *.
+  set (ins := firstn k body). set (rest := skipn (S k) body).
+  set (bargs := map it_arg iters). set (inits := map it_init iters).
+  cbn [loop_side_ok] in Hside. fold k a fs nf1 epi ins rest bargs inits in Hside.
+  repeat match type of Hside with (_ && _) = true => let H := fresh "C" in apply andb_true_iff in Hside as [Hside H] end.
+  rename Hside into Cin. rename C28 into Ck. rename C27 into Cpure. rename C25 into Cob. rename C21 into CX.
+  rename C18 into Cfresh. rename C2 into Cdy. rename C1 into Cdi.
+  apply (list_eqb_eq Nat.eqb Nat.eqb_eq) in Cin. apply Nat.leb_le in Ck.
+  destruct (find_setup_split o body 0%nat k a s_in fs Hfind) as [_ Hbody]. rewrite Nat.sub_0_r in Hbody.
+  fold ins rest in Hbody.
+  assert (Hins_eq : nth_stmts body (lp_inputs pl) = ins).
+  { rewrite Cin. apply (nth_stmts_seq body [] k Ck). }
+  rewrite Hins_eq in Hc1, Hc2. fold bargs inits in Hc1, Hc2.
+  assert (Hins : all_spure ins = true).
+  { unfold all_spure. rewrite forallb_forall in *. intros x Hx. specialize (Cpure x Hx). destruct x; try discriminate; reflexivity. }
+  set (X := ops_of ins ++ map snd fs).
+  assert (HXoff : forall v, In v X -> off F v).
+  { intros v Hv. pose proof (noneb_off _ _ CX) as Hf. rewrite Forall_forall in Hf. apply Hf. exact Hv. }
+  pose proof (forallb_ltb _ _ C20) as HXlt. pose proof (forallb_ltb _ _ C19) as Hyslt. pose proof (forallb_ltb _ _ C17) as Hlilt.
+  assert (Hfresh : forall x, (nf <= x < lp_nfe pl)%nat -> In x F).
+  { intros x Hx. rewrite forallb_forall in Cfresh. apply mem_nat_In. apply Cfresh. apply in_seq. lia. }
+  (* shapes of the two clones *)
+  destruct (clone_scoped_bounds _ _ _ _ _ _ _ _ _ _ Hins Hc1) as [Hb1 Hb1'].
+  destruct (clone_scoped_bounds _ _ _ _ _ _ _ _ _ _ Hins Hc2) as [Hb2 Hb2'].
+  assert (Hnf_le : (nf <= nf1)%nat) by (rewrite Hb1'; lia).
+  assert (Hnfe_le : (S nf1 <= lp_nfe pl)%nat) by (rewrite Hb2'; lia).
+  apply negb_true_iff in C24. apply Nat.eqb_neq in C24. apply negb_true_iff in C23. apply Nat.eqb_neq in C23.
+  apply negb_true_iff in C10. apply Nat.eqb_neq in C10.
+  apply negb_mem_off in C16. apply negb_mem_off in C15. apply negb_mem_off in C14.
+  apply negb_mem_off in C13. apply negb_mem_off in C12. apply negb_mem_off in C11.
+  apply negb_mem_off in C9. apply negb_mem_off in C8.
+  apply nodupb_NoDup in C6. rename C6 into Hnd. apply Nat.eqb_eq in C7. rename C7 into Hlen.
+  apply block_reads_off_forallb in C22. rename C22 into Hrest_ro.
+  apply two_okb_ok in C5. rename C5 into Hys2. apply two_okb_ok in C4. rename C4 into Hin2.
+  apply forallb_bind_ok in C3. rename C3 into Hrs.
+  assert (Hdep_y : forall j b y, nth_error bargs j = Some b -> nth_error ys j = Some y -> In b X -> off F y).
+  { intros j b y H1 H2 Hb. pose proof (pair_nth _ _ _ j b y Cdy H1 H2) as Hp. cbn [fst snd] in Hp.
+    apply orb_true_iff in Hp as [Hp|Hp]; [|apply negb_mem_off; exact Hp].
+    apply negb_true_iff in Hp. apply mem_nat_false in Hp. contradiction. }
+  assert (Hdep_i : forall j b i, nth_error bargs j = Some b -> nth_error inits j = Some i -> In b X -> off F i).
+  { intros j b i H1 H2 Hb. pose proof (pair_nth _ _ _ j b i Cdi H1 H2) as Hp. cbn [fst snd] in Hp.
+    apply orb_true_iff in Hp as [Hp|Hp]; [|apply negb_mem_off; exact Hp].
+    apply negb_true_iff in Hp. apply mem_nat_false in Hp. contradiction. }
+  (* execute *)
+  rewrite exec_block_app. cbn [exec_block]. rewrite !exec_stmt_for. unfold exec_for.
+  rewrite iters1_args. fold bargs.
+  set (m2p := exec_block orc (lp_pro pl) m2).
+  set (inits' := map it_init (iters1_of iters (lp_idx pl) (lp_stpro pl))).
+  rewrite <- !(map_map it_init). fold inits inits'.
+  assert (HXlt' : forall v, In v X -> (v < nf)%nat) by (intros v Hv; apply HXlt; rewrite ops_ofb_eq; exact Hv).
+  assert (Hlblt' : (lb < nf)%nat) by (apply Hlilt; left; reflexivity).
+  assert (Hinlt' : forall v, In v inits -> (v < nf)%nat) by (intros v Hv; apply Hlilt; right; exact Hv).
+  assert (Hfresh' : forall x, (nf <= x < nf1)%nat -> In x F) by (intros x Hx; apply Hfresh; lia).
+  assert (Hlen_i : List.length inits = List.length bargs) by (unfold inits, bargs; rewrite !map_length; reflexivity).
+  assert (Hin2_len : List.length inits' = List.length inits) by apply iters1_len.
+  pose proof (prologue_inv orc F a iv sp lb bargs inits inits' ins o s_in fs nf (lp_pro pl) (lp_stpro pl) nf1
+                Hins Hc1 HXoff HXlt' Hlblt' Hinlt' Hfresh' (conj C13 C11) C9 Hlen_i Hnd Hin2 Hin2_len Hdep_i m1 m2 HR)
+    as [Hinv0 Hee].
+  { fold m2p in Hinv0, Hee.
+    assert (Hl : env m1 lb = env m2p lb) by (apply Hee; assumption).
+    assert (Hu : env m1 ub = env m2p ub) by (apply Hee; assumption).
+    assert (Hs : env m1 sp = env m2p sp) by (apply Hee; assumption).
+    rewrite Hl, Hu, Hs.
+    set (l := env m2p lb) in *. set (st := env m2p sp) in *.
+    set (n := trip_count l (env m2p ub) st).
+    set (ys' := map (sv o s_in) (set_nth (lp_idx pl) (lp_stepi pl) ys)).
+    (* bodies *)
+    assert (Hbm : forall m, exec_block orc (subst_block o s_in (ins ++ rest ++ [SPure nf1 (PBin BAdd iv sp)] ++ epi)) m
+                            = exec_block orc (body' iv sp ins rest nf1 epi) m).
+    { intros m. unfold body'. rewrite exec_subst_flat_block; [reflexivity| |].
+      - rewrite !forallb_app. cbn [forallb is_flat andb].
+        assert (forallb is_flat ins = true).
+        { rewrite forallb_forall in *. intros x Hx. specialize (Cpure x Hx). destruct x; try discriminate; reflexivity. }
+        repeat (apply andb_true_iff; split); assumption.
+      - rewrite Hbody in Cob. rewrite forallb_app in Cob. apply andb_true_iff in Cob as [Cob1 Cob2].
+        cbn [forallb] in Cob2. apply andb_true_iff in Cob2 as [_ Cob2].
+        rewrite !forallb_app. cbn [forallb flat_reads pexp_vals mem_nat existsb].
+        assert (Hiv' : Nat.eqb o iv = false) by (apply Nat.eqb_neq; assumption).
+        assert (Hsp' : Nat.eqb o sp = false) by (apply Nat.eqb_neq; assumption).
+        rewrite Hiv', Hsp'. cbn [orb negb andb].
+        repeat (apply andb_true_iff; split); assumption. }
+    assert (Hit : forall M, iter_n n (for_step (exec_block orc (subst_block o s_in (ins ++ rest ++ [SPure nf1 (PBin BAdd iv sp)] ++ epi))) iv bargs ys' l st) M
+                          = iter_n n (for_step (exec_block orc (body' iv sp ins rest nf1 epi)) iv bargs ys' l st) M).
+    { intros M. apply iter_n_ext. intros k0 x. unfold for_step. rewrite !Hbm. reflexivity. }
+    fold ins rest. rewrite Hit.
+    assert (Hfb : exec_block orc body = exec_block orc (C06LoopInsideProofs.body a ins o s_in fs rest)) by (f_equal; exact Hbody).
+    rewrite Hfb.
+    pose proof (loop_inside orc F a iv sp bargs ins o s_in fs rest rest ys ys' nf1 epi (lp_stepi pl) (lp_nfe pl)
+                  Hins Hc2 (fun m => eq_refl) Hrest_ro HXoff) as Hli.
+    assert (Hinvn : Inv orc F a iv sp ins o s_in fs l st n
+              (iter_n n (for_step (exec_block orc (C06LoopInsideProofs.body a ins o s_in fs rest)) iv bargs ys l st)
+                        (set_env m1 (bind_list bargs (map (env m1) inits) (env m1))))
+              (iter_n n (for_step (exec_block orc (body' iv sp ins rest nf1 epi)) iv bargs ys' l st)
+                        (set_env m2p (bind_list bargs (map (env m2p) inits') (env m2p))))).
+    { apply Hli; try assumption.
+      - intros v Hv. assert (v < nf)%nat by (apply HXlt; rewrite ops_ofb_eq; exact Hv). lia.
+      - intros v Hv. specialize (Hyslt v Hv). lia.
+      - intros x Hx. apply Hfresh. lia.
+      - repeat split; assumption.
+      - repeat split; assumption.
+      - unfold ys'. rewrite map_length, set_nth_length. reflexivity. }
+    destruct Hinvn as (HRn & _). pose proof HRn as (Hen & _).
+    apply Rel_set_env; [exact HRn|]. apply bind_list_agree; [exact Hen|exact Hen|exact Hrs]. }
+Qed.
